@@ -55,16 +55,29 @@ GenBefore(c, i) == Cardinality({j \in 1..(i - 1) : c.mws[j].pre # "" /\ c.mws[j]
 
 --------------------------------------------------------------------------
 (* observable summary                                                      *)
+(* per message: counters + positions (in the message's own event list) of  *)
+(* the first ack / start / end / save_e, kept incrementally                *)
+MsInit == [cbB |-> 0, cbE |-> 0, cbOk |-> FALSE, st |-> 0, en |-> 0, oc |-> "none", ak |-> 0,
+           iAck |-> 0, iStart |-> 0, iEnd |-> 0, sb |-> 0, se |-> 0, seOk |-> FALSE, n |-> 0]
 RxObsInit(c) ==
   [ taken |-> <<>>, arrived |-> 0, stopN |-> -1, stopT |-> -1, retT |-> -1,
     limT |-> -1, now |-> 0, lastTakeT |-> -1, lastDoneT |-> -1,
-    lst |-> [m \in 1..c.M |-> <<>>], cbOrder |-> <<>>,
-    stT |-> [m \in 1..c.M |-> -1] ]
+    lst |-> [m \in 1..c.M |-> <<>>], ms |-> [m \in 1..c.M |-> MsInit], cbOrder |-> <<>>,
+    stT |-> [m \in 1..c.M |-> -1], nRun |-> 0, nDone |-> 0, nBody |-> 0, nCb |-> 0 ]
 
-Running(c, o) == {m \in 1..c.M : Has(o.lst[m], "cb_b") /\ ~Has(o.lst[m], "cb_e")}
-InBody(c, o) == {m \in 1..c.M : Has(o.lst[m], "start") /\ ~Has(o.lst[m], "end")}
-DoneSet(c, o) == {m \in 1..c.M : Has(o.lst[m], "cb_e")}
 TakenSet(o) == RangeS(o.taken)
+
+MsFold(r, ev) ==
+  LET n1 == r.n + 1
+      r1 == [r EXCEPT !.n = n1] IN
+  CASE ev.e = "cb_b" -> [r1 EXCEPT !.cbB = @ + 1]
+    [] ev.e = "cb_e" -> [r1 EXCEPT !.cbE = @ + 1, !.cbOk = (ev.s = "ok")]
+    [] ev.e = "start" -> [r1 EXCEPT !.st = @ + 1, !.iStart = IF @ = 0 THEN n1 ELSE @]
+    [] ev.e = "end" -> [r1 EXCEPT !.en = @ + 1, !.iEnd = IF @ = 0 THEN n1 ELSE @, !.oc = IF r.en = 0 THEN ev.s ELSE @]
+    [] ev.e = "ack" -> [r1 EXCEPT !.ak = @ + 1, !.iAck = IF @ = 0 THEN n1 ELSE @]
+    [] ev.e = "save_b" -> [r1 EXCEPT !.sb = @ + 1]
+    [] ev.e = "save_e" -> [r1 EXCEPT !.se = @ + 1, !.seOk = (ev.s = "ok")]
+    [] OTHER -> r1
 
 RxFold(c, o, ev) ==
   LET o1 == [o EXCEPT !.now = ev.t] IN
@@ -77,16 +90,20 @@ RxFold(c, o, ev) ==
     [] ev.e = "ret" -> [o1 EXCEPT !.retT = IF @ < 0 THEN ev.t ELSE @]
     [] ev.e \in MsgEvents /\ ev.m \in 1..c.M ->
          [o1 EXCEPT !.lst[ev.m] = Append(@, [e |-> ev.e, x |-> ev.x, y |-> ev.y, s |-> ev.s]),
+                    !.ms[ev.m] = MsFold(@, ev),
                     !.cbOrder = IF ev.e = "cb_b" THEN Append(@, ev.m) ELSE @,
                     !.stT[ev.m] = IF ev.e = "start" /\ @ < 0 THEN ev.t ELSE @,
-                    !.lastDoneT = IF ev.e = "cb_e" THEN ev.t ELSE @]
+                    !.lastDoneT = IF ev.e = "cb_e" THEN ev.t ELSE @,
+                    !.nRun = IF ev.e = "cb_b" THEN @ + 1 ELSE IF ev.e = "cb_e" THEN @ - 1 ELSE @,
+                    !.nCb = IF ev.e = "cb_b" THEN @ + 1 ELSE @,
+                    !.nDone = IF ev.e = "cb_e" THEN @ + 1 ELSE @,
+                    !.nBody = IF ev.e = "start" THEN @ + 1 ELSE IF ev.e = "end" THEN @ - 1 ELSE @]
     [] OTHER -> o1
 
 --------------------------------------------------------------------------
 (* per-message clauses; L = event list of message m after the new event    *)
 WillDepFail(c, m) == \E i \in DOMAIN DepsOf(c, m) : DepsOf(c, m)[i].fail
-Outcome(c, m, L) == IF Has(L, "end") THEN L[First(L, "end")].s
-                    ELSE IF WillDepFail(c, m) THEN "depfail" ELSE "none"
+OutcomeR(c, m, r) == IF r.en > 0 THEN r.oc ELSE IF WillDepFail(c, m) THEN "depfail" ELSE "none"
 
 (* expected hook/stage sequence for outcome oc, whether a result was stored ok *)
 HookSeq(c, h) == [k \in 1..Len(HookIdx(c, h)) |-> <<h, HookIdx(c, h)[k]>>]
@@ -103,9 +120,8 @@ StageOf(r) == CASE r.e = "pre_b" -> <<"pre", r.x>> [] r.e = "onerr_b" -> <<"oner
 StageEvents == {"pre_b", "onerr_b", "post_b", "postsave_b", "start", "save_b"}
 ObservedStages(L) == LET P == Proj(L, StageEvents) IN [i \in 1..Len(P) |-> StageOf(P[i])]
 
-C10StagesOK(c, m, L) ==
+C10StagesOK(c, m, L, oc) ==
   LET obsS == ObservedStages(L)
-      oc == Outcome(c, m, L)
       cands == IF oc = "none" THEN {"ret", "exc", "nores"} ELSE {oc}
   IN \E k \in cands : \E sv \in BOOLEAN : \E ok \in BOOLEAN :
         /\ (k = "nores" => ~sv)
@@ -120,39 +136,38 @@ C10HookPairsOK(c, L) ==
        IN IF isB THEN (i < Len(H) => (H[i + 1].x = r.x /\ H[i + 1].e \notin {"pre_b", "onerr_b", "post_b", "postsave_b"}))
           ELSE i > 1 /\ H[i - 1].x = r.x /\ H[i - 1].e \in {"pre_b", "onerr_b", "post_b", "postsave_b"}
 
-C10GenOK(c, m, L) ==
-  \A i \in DOMAIN L :
-     /\ (L[i].e = "pre_b" => L[i].y = GenBefore(c, L[i].x) /\ L[i].s = ToString(m))
-     /\ (L[i].e \in {"onerr_b", "post_b", "postsave_b"} => L[i].y = TotalGen(c) /\ L[i].s = ToString(m))
+C10GenOK(c, m, ev) ==
+     /\ (ev.e = "pre_b" => ev.x \in 1..NMw(c) /\ ev.y = GenBefore(c, ev.x) /\ ev.s = ToString(m))
+     /\ (ev.e \in {"onerr_b", "post_b", "postsave_b"} => ev.y = TotalGen(c) /\ ev.s = ToString(m))
 
 (* ---- C12 helpers ---- *)
 OpenedSeq(c, L) == LET P == Proj(L, {"dep_open"}) IN
-                   SelectSeq([i \in 1..Len(P) |-> P[i].x], LAMBDA d : DepRec(c, d).style \in Teardown)
+                   SelectSeq([i \in 1..Len(P) |-> P[i].x], LAMBDA d : DepRec(c, d).style \in Teardown /\ ~DepRec(c, d).fail)
 ClosedSeq(L) == LET P == Proj(L, {"dep_close"}) IN [i \in 1..Len(P) |-> P[i].x]
 
 PerMsg(c, o, m, L, ev) ==
   LET valid == IsValid(c, m)
-      oc == Outcome(c, m, L)
-      nAck == Cnt(L, "ack")
-      iAck == First(L, "ack")
-      iStart == First(L, "start")
-      iEnd == First(L, "end")
+      r == o.ms[m]
+      oc == OutcomeR(c, m, r)
+      nAck == r.ak
+      iAck == r.iAck
+      iStart == r.iStart
+      iEnd == r.iEnd
       at == AckT(c)
-      ended == Has(L, "cb_e")
-      endedOk == ended /\ L[First(L, "cb_e")].s = "ok"
+      ended == r.cbE > 0
+      endedOk == ended /\ r.cbOk
       hooksOk == ~FatalHookRaises(c)
       opened == OpenedSeq(c, L)
       closed == ClosedSeq(L)
-      saveB == First(L, "save_b")
-      saveE == First(L, "save_e")
+      saveE == r.se
       doneExec == iEnd > 0 \/ oc = "depfail"
   IN
   (* ---------------- C01 ---------------- *)
-     (IF Cnt(L, "start") <= 1 /\ Cnt(L, "cb_b") <= 1 /\ (~valid => Cnt(L, "start") = 0)
+     (IF r.st <= 1 /\ r.cbB <= 1 /\ (~valid => r.st = 0)
       THEN {} ELSE {"C01_AtMostOnce"})
-  \cup (IF valid /\ endedOk /\ hooksOk /\ oc # "depfail" /\ ev.e = "cb_e" /\ Cnt(L, "start") # 1
+  \cup (IF valid /\ endedOk /\ hooksOk /\ oc # "depfail" /\ ev.e = "cb_e" /\ r.st # 1
         THEN {"C01_Executed"} ELSE {})
-  \cup (IF ~valid /\ ended /\ (~endedOk \/ Len(L) # 2) THEN {"C01_SkipsHarmless"} ELSE {})
+  \cup (IF ~valid /\ ended /\ (~endedOk \/ r.n # 2) THEN {"C01_SkipsHarmless"} ELSE {})
   (* ---------------- C02 ---------------- *)
   \cup (IF nAck <= 1 THEN {} ELSE {"C02_AtMostOnce"})
   \cup (IF c.ackable /\ valid /\ hooksOk /\ ev.e \in {"ack", "start"} /\ at = "when_received"
@@ -167,28 +182,27 @@ PerMsg(c, o, m, L, ev) ==
         THEN {"C02_Once"} ELSE {})
   \cup (IF ~valid /\ nAck > 0 THEN {"C02_AckOfSkipped"} ELSE {})
   (* ---------------- C06 ---------------- *)
-  \cup (IF \A i \in DOMAIN L : (L[i].e \in {"dep_open", "dep_opened", "start"} => L[i].y \in {0, m})
-                               /\ (L[i].e = "start" => L[i].x = m)
+  \cup (IF (ev.e \in {"dep_open", "dep_opened", "start"} => ev.y \in {0, m}) /\ (ev.e = "start" => ev.x = m)
         THEN {} ELSE {"C06_OwnContext"})
-  \cup (IF \A i \in DOMAIN L : L[i].e = "save_b" => L[i].x = m THEN {} ELSE {"C06_ResultBinding"})
+  \cup (IF ev.e = "save_b" => ev.x = m THEN {} ELSE {"C06_ResultBinding"})
   (* ---------------- C07 ---------------- *)
   \cup (IF ev.e = "save_b" THEN
-          LET r == L[Len(L)]
-              isErr == (r.y % 2) = 1
-              valOk == ((r.y \div 2) % 2) = 1
-              lblOk == ((r.y \div 4) % 2) = 1
-              errOk == ((r.y \div 8) % 2) = 1
+          LET q == ev
+              isErr == (q.y % 2) = 1
+              valOk == ((q.y \div 2) % 2) = 1
+              lblOk == ((q.y \div 4) % 2) = 1
+              errOk == ((q.y \div 8) % 2) = 1
           IN (IF oc = "nores" THEN {"C07_NoResultStored"} ELSE {})
-             \cup (IF oc = "ret" /\ ~(~isErr /\ valOk /\ r.s = "none") THEN {"C07_ReturnValue"} ELSE {})
-             \cup (IF oc \in {"exc", "base"} /\ ~(isErr /\ errOk /\ r.s = oc) THEN {"C07_Error"} ELSE {})
-             \cup (IF oc = "cancel" /\ ~(isErr /\ r.s = "timeout") THEN {"C07_TimeoutError"} ELSE {})
-             \cup (IF oc = "depfail" /\ ~(isErr /\ r.s = "depfail") THEN {"C07_Error"} ELSE {})
+             \cup (IF oc = "ret" /\ ~(~isErr /\ valOk /\ q.s = "none") THEN {"C07_ReturnValue"} ELSE {})
+             \cup (IF oc \in {"exc", "base"} /\ ~(isErr /\ errOk /\ q.s = oc) THEN {"C07_Error"} ELSE {})
+             \cup (IF oc = "cancel" /\ ~(isErr /\ q.s = "timeout") THEN {"C07_TimeoutError"} ELSE {})
+             \cup (IF oc = "depfail" /\ ~(isErr /\ q.s = "depfail") THEN {"C07_Error"} ELSE {})
              \cup (IF ~lblOk THEN {"C07_Labels"} ELSE {})
              \cup (IF oc = "none" THEN {"C07_SavedBeforeEnd"} ELSE {})
         ELSE {})
-  \cup (IF Cnt(L, "save_b") <= 1 THEN {} ELSE {"C07_ExactlyOne"})
+  \cup (IF r.sb <= 1 THEN {} ELSE {"C07_ExactlyOne"})
   \cup (IF valid /\ hooksOk /\ ev.e = "cb_e" /\ endedOk /\ oc # "none"
-           /\ Cnt(L, "save_b") # (IF oc = "nores" THEN 0 ELSE 1)
+           /\ r.sb # (IF oc = "nores" THEN 0 ELSE 1)
         THEN {"C07_ExactlyOne"} ELSE {})
   \cup (IF ev.e = "end" /\ ev.s = "cancel" /\ MsgC(c, m).timeout > 0
            /\ o.now # o.stT[m] + MsgC(c, m).timeout
@@ -196,13 +210,12 @@ PerMsg(c, o, m, L, ev) ==
   \cup (IF ev.e = "end" /\ ev.s = "cancel" /\ MsgC(c, m).timeout = 0
         THEN {"C07_SpuriousCancel"} ELSE {})
   (* ---------------- C10 ---------------- *)
-  \cup (IF valid /\ ev.e \in StageEvents /\ ~C10StagesOK(c, m, L) THEN {"C10_ExecOrder"} ELSE {})
+  \cup (IF valid /\ ev.e \in StageEvents /\ ~C10StagesOK(c, m, L, oc) THEN {"C10_ExecOrder"} ELSE {})
   \cup (IF valid /\ ev.e \in {"pre_b", "pre_e", "onerr_b", "onerr_e", "post_b", "post_e", "postsave_b", "postsave_e"}
-           /\ ~(C10HookPairsOK(c, L) /\ C10GenOK(c, m, L))
+           /\ ~(C10HookPairsOK(c, L) /\ C10GenOK(c, m, ev))
         THEN {"C10_HookOnce"} ELSE {})
   \cup (IF valid /\ ev.e = "cb_e" /\ endedOk /\ hooksOk /\ oc # "none" /\ ~PostSaveRaises(c)
-           /\ ObservedStages(L) # ExpectedStages(c, oc, oc # "depfail", Cnt(L, "save_b") = 1,
-                                                  saveE > 0 /\ L[Max2(saveE, 1)].s = "ok")
+           /\ ObservedStages(L) # ExpectedStages(c, oc, oc # "depfail", r.sb = 1, r.se > 0 /\ r.seOk)
         THEN {"C10_Complete"} ELSE {})
   (* ---------------- C12 ---------------- *)
   \cup (IF \A d \in RangeS(closed) : CntX(L, "dep_close", d) = 1 /\ HasX(L, "dep_open", d)
@@ -223,32 +236,32 @@ PerMsg(c, o, m, L, ev) ==
 
 --------------------------------------------------------------------------
 (* global clauses                                                          *)
-AllTakenDone(c, o) == \A m \in TakenSet(o) : Has(o.lst[m], "cb_e")
+AllTakenDone(c, o) == o.nDone >= Len(o.taken)
 ShutdownT(o) == IF o.stopT >= 0 /\ o.limT >= 0 THEN Min2(o.stopT, o.limT)
                 ELSE IF o.stopT >= 0 THEN o.stopT ELSE o.limT
 
 Global(c, o, ev) ==
-  LET nRun == Cardinality(Running(c, o))
-      unfinished == Len(o.taken) - Cardinality(TakenSet(o) \cap DoneSet(c, o))
+  LET nRun == o.nRun
+      unfinished == Len(o.taken) - o.nDone
+      busy == Max2(o.nRun, o.nBody)
   IN
-     (IF c.A > 0 /\ nRun > c.A THEN {"C03_Limit"} ELSE {})
+     (IF c.A > 0 /\ busy > c.A THEN {"C03_Limit"} ELSE {})
   \cup (IF c.A = 1 /\ ev.e = "cb_b" /\ ~IsPrefixOf(o.cbOrder, o.taken) THEN {"C03_Serial"} ELSE {})
   \cup (IF ev.e = "probe" /\ ev.x = 1
-           /\ Cardinality(InBody(c, o)) #
-                (IF c.A > 0 THEN Min2(c.A, o.arrived - Cardinality(DoneSet(c, o)))
-                 ELSE o.arrived - Cardinality(DoneSet(c, o)))
+           /\ o.nBody # (IF c.A > 0 THEN Min2(c.A, o.arrived - o.nDone) ELSE o.arrived - o.nDone)
         THEN {"C03_Probe"} ELSE {})
   \cup (IF c.A > 0 /\ unfinished > c.A + c.P + 1 THEN {"C04_Bound"} ELSE {})
   \cup (IF ev.e = "take" /\ \E i \in 1..(Len(o.taken) - 1) : o.taken[i] = ev.m THEN {"C01_TakenTwice"} ELSE {})
+  \cup (IF ev.e = "cb_b" /\ ev.m \notin TakenSet(o) THEN {"C01_NotTaken"} ELSE {})
   \cup (IF o.stopN >= 0 /\ Len(o.taken) - o.stopN > 1 THEN {"C05_AtMostOneMore"} ELSE {})
   \cup (IF c.N > 0 /\ Len(o.taken) > c.N THEN {"C05_ExactlyN"} ELSE {})
   \cup (IF ev.e = "ret" /\ c.N > 0 /\ o.stopT < 0 /\ Len(o.taken) # c.N THEN {"C05_ExactlyN"} ELSE {})
   \cup (IF ev.e = "ret" /\ o.stopT < 0 /\ (c.N = 0 \/ o.limT < 0) THEN {"C05_SpuriousReturn"} ELSE {})
-  \cup (IF ev.e = "ret" /\ (\E m \in TakenSet(o) : Has(o.lst[m], "cb_b") /\ ~Has(o.lst[m], "cb_e"))
+  \cup (IF ev.e = "ret" /\ o.nRun > 0
            /\ ~(c.W >= 0 /\ ShutdownT(o) >= 0 /\ o.now >= ShutdownT(o) + c.W)
         THEN {"C05_NoEarlyReturn"} ELSE {})
-  \cup (IF ev.e = "ret" /\ \E m \in TakenSet(o) : ~Has(o.lst[m], "cb_b") THEN {"C05_Drains"} ELSE {})
-  \cup (IF ev.e = "ret" /\ \E m \in TakenSet(o) : IsValid(c, m) /\ ~Has(o.lst[m], "cb_b") THEN {"C01_Lost"} ELSE {})
+  \cup (IF ev.e = "ret" /\ o.nCb < Len(o.taken) THEN {"C05_Drains"} ELSE {})
+  \cup (IF ev.e = "ret" /\ \E m \in TakenSet(o) : IsValid(c, m) /\ o.ms[m].cbB = 0 THEN {"C01_Lost"} ELSE {})
   \cup (IF ev.e = "eot" /\ o.retT < 0 /\ ShutdownT(o) >= 0 /\ AllTakenDone(c, o)
            /\ o.now >= Max2(Max2(ShutdownT(o), o.lastDoneT), o.lastTakeT) + PollPeriod + Slack
         THEN {"C05_Prompt"} ELSE {})
